@@ -204,6 +204,8 @@ func init() {
 		}
 		return Slice{A: out}
 	})
+	v("AllocMark", func(ex *Exec, fr *Frame, a []Value) Value { return term.Const(0, 64) })
+	v("AllocOK", func(ex *Exec, fr *Frame, a []Value) Value { return term.True })
 	v("Go", func(ex *Exec, fr *Frame, a []Value) Value {
 		ex.goStmt(fr, a[1], nil)
 		return nil
